@@ -53,7 +53,11 @@ fn parts_for(prop: &str, tier: Tier) -> Vec<Box<dyn explore::Harness>> {
             // (the largest part last: it gets all the time that is left)
             s(SProp::C02),
         ],
-        "C03" => vec![c(CProp::C03)],
+        "C03" => vec![
+            // one abandonment among n calls in flight, with a new call begun in the same step
+            Box::new(burst::BurstHarness { prop: "C03", cfgs: burst::configs_many(burst::Side::ClientAbandonAmongMany, tier == Tier::Thorough) }),
+            c(CProp::C03),
+        ],
         "C04" => vec![
             // abandoning many calls in one step cancels every one of them (bursts; the sizes
             // enumerated for C11)
@@ -66,6 +70,8 @@ fn parts_for(prop: &str, tier: Tier) -> Vec<Box<dyn explore::Harness>> {
             Box::new(burst::BurstHarness { prop: "C06", cfgs: burst::configs_many(burst::Side::ServerManyExpire, tier == Tier::Thorough) }),
             // the same count, the server run as the examples run it (spawn_incoming, real tokio tasks)
             Box::new(burst::BurstHarness { prop: "C06", cfgs: burst::configs_many(burst::Side::SpawnedServerExpire, tier == Tier::Thorough) }),
+            // spawned channel, deadlines 10 ms apart, a finished response waiting behind a peer that is not reading
+            Box::new(burst::BurstHarness { prop: "C06", cfgs: burst::configs_many(burst::Side::SpawnedServerExpireQueued, tier == Tier::Thorough) }),
             s(SProp::C06),
         ],
         "C08" => vec![
@@ -206,7 +212,11 @@ fn run(prop: &str, tier: Tier, replay: Option<String>) -> i32 {
     if prop == "C19" {
         return hooks::run_c19(tier);
     }
-    let parts = parts_for(prop, tier);
+    let mut parts = parts_for(prop, tier);
+    // developer aid: MC_ONLY_PARTS=<substring> keeps the parts whose name contains it
+    if let Ok(only) = std::env::var("MC_ONLY_PARTS") {
+        parts.retain(|p| p.name().contains(&only));
+    }
     if !parts.is_empty() {
         // Quick: B = 0,1,2 always complete in seconds; where B = 2 is cheap a third deviation is
         // attempted under a short wall cap (evidence reports the largest *completed* bound and, if
